@@ -358,6 +358,24 @@ PROPS = {
                 level_note=LEVEL_NOTE),
 }
 
+# Streams added to several properties at once.
+#  -realctor: the controller is built through the real NewController (its informers must sync: about half a second of
+#             waiting per construction, so these run in shards like the -slow streams). Without it the harness uses a hook
+#             that repeats NewController's body with caller-supplied listers, which a change to NewController escapes.
+#  -slow:     the credentials refresh may fail (the provider is rebuilt, 5 s of real sleep) and real seconds pass.
+def _extra(prop, focus, flag, q, t, sn):
+    st = PROPS[prop]['streams']
+    st['quick'].append(('hist', ['-n', q, '-scans', 6, '-focus', focus, flag]))
+    st['thorough'].append(('hist', ['-n', t, '-scans', 8, '-focus', focus, flag]))
+    st['search'].append(('hist', ['-n', sn, '-scans', 8, '-focus', focus, flag]))
+
+
+for _p, _f in (('C02', 'cooldown'), ('C03', 'restore'), ('C04', 'autodisc'), ('C11', 'dry'), ('C12', 'multi')):
+    _extra(_p, _f, '-realctor', 24, 240, 48)
+for _p, _f in (('C05', 'up'), ('C01', 'churn'), ('C09', 'churn'), ('C10', 'churn'), ('C03', 'up')):
+    _extra(_p, _f, '-slow', 16, 160, 32)
+
+
 # diffs that are relevant whatever the property (the scan's overall result)
 GLOBAL_ASPECTS = {'outcome'}
 
